@@ -6,6 +6,7 @@ import (
 	"go/types"
 	"reflect"
 	"strings"
+	"unicode/utf8"
 
 	"golang.org/x/tools/go/ssa"
 )
@@ -40,6 +41,21 @@ func (st *State) fresh(t types.Type, name string, depth int) Val {
 		}
 		return sv
 	case *types.Slice:
+		if isRawMessage(t) {
+			// json.RawMessage: a real (mutable) byte slice, so that the decoder's reuse of the backing array
+			// (RawMessage.UnmarshalJSON appends to m[:0]) and the aliasing it causes are visible
+			const rawCap = 3
+			arr := st.newLoc(types.NewArray(u.Elem(), rawCap), name)
+			for i := 0; i < rawCap; i++ {
+				st.store(arr.Elems[i], st.freshVar(fmt.Sprintf("%s.b%d", name, i), SBV(8)))
+			}
+			ln := st.freshVar(name+".len", SBV(64))
+			isNil := st.freshVar(name+".isnil", SBool)
+			st.assume(And(Cmp(">=", ln, BV(64, 0), true), Cmp("<=", ln, BV(64, rawCap), true)))
+			st.assume(Implies(isNil, Eq(ln, BV(64, 0))))
+			st.assume(Implies(Not(isNil), Cmp(">=", ln, BV(64, 1), true)))
+			return SliceVal{Arr: arr, Len: ln, Cap: rawCap, IsNil: isNil, ElemT: u.Elem()}
+		}
 		if isByteSlice(t) {
 			return BytesVal{S: st.freshVar(name, SStr), IsNil: st.freshVar(name+".isnil", SBool)}
 		}
@@ -75,6 +91,41 @@ func (st *State) fresh(t types.Type, name string, depth int) Val {
 }
 
 func (st *State) freshSliceMax() int { return 2 }
+
+func isRawMessage(t types.Type) bool {
+	n, ok := t.(*types.Named)
+	return ok && n.Obj().Name() == "RawMessage" && n.Obj().Pkg() != nil && n.Obj().Pkg().Path() == "encoding/json"
+}
+
+// storeDecoded stores a decoded value, modelling encoding/json's reuse of an existing RawMessage backing array:
+// the new bytes are written into the old array (when they fit), so every alias of the old slice changes.
+func (st *State) storeDecoded(l *Loc, v Val) {
+	switch l.T.Underlying().(type) {
+	case *types.Struct:
+		sv := v.(StructVal)
+		for i, e := range l.Elems {
+			st.storeDecoded(e, sv.Fields[i])
+		}
+		return
+	}
+	if isRawMessage(l.T) {
+		if old, ok := l.V.(SliceVal); ok && old.Arr != nil {
+			if nv, ok := v.(SliceVal); ok && nv.Arr != nil {
+				n := old.Cap
+				if nv.Cap < n {
+					n = nv.Cap
+				}
+				for i := 0; i < n; i++ {
+					st.store(old.Arr.Elems[old.Off+i], st.load(nv.Arr.Elems[nv.Off+i]))
+				}
+				st.assume(Cmp("<=", nv.Len, BV(64, uint64(n)), true)) // it fits: the array is reused
+				l.V = SliceVal{Arr: old.Arr, Off: old.Off, Len: nv.Len, Cap: old.Cap, IsNil: nv.IsNil, ElemT: old.ElemT}
+				return
+			}
+		}
+	}
+	st.store(l, v)
+}
 
 func isErrorType(t types.Type) bool {
 	return types.Identical(t, types.Universe.Lookup("error").Type())
@@ -404,6 +455,39 @@ func (st *State) callExtern(g *G, fr *Frame, name string, fn *ssa.Function, args
 	case "unicode/utf8.RuneStart":
 		b := args[0].(*Term)
 		return Not(bvEq(Arith("&", b, BV(8, 0xc0), false), BV(8, 0x80))), false
+	case "unicode/utf8.DecodeLastRuneInString", "unicode/utf8.DecodeLastRune":
+		// exact size, rune value abstract (fresh) unless ASCII; byte-vector strings only
+		sv := st.strArg(args[0])
+		if sv.Const {
+			r, sz := utf8.DecodeLastRuneInString(sv.Str)
+			return TupleVal{BV(32, uint64(uint32(r))), BV(64, uint64(sz))}, false
+		}
+		if sv.BS == nil {
+			st.fail("unsupported", "DecodeLastRuneInString needs byte-vector strings")
+		}
+		n := StrLen(sv)
+		at := func(k int) *Term { return StrByte(sv, Arith("-", n, BV(64, uint64(k)), true)) } // k-th byte from the end
+		isStart := func(b *Term) *Term { return Not(bvEq(Arith("&", b, BV(8, 0xc0), false), BV(8, 0x80))) }
+		ge := func(k int) *Term { return Cmp(">=", n, BV(64, uint64(k)), true) }
+		last := at(1)
+		lastASCII := Cmp("<", last, BV(8, 0x80), false)
+		size := BV(64, 1)
+		// candidates from the longest: the first RuneStart found scanning back from the second to last byte
+		for k := 4; k >= 2; k-- {
+			cond := ge(k)
+			for j := 2; j < k; j++ {
+				cond = And(cond, Not(isStart(at(j))))
+			}
+			cond = And(cond, isStart(at(k)))
+			sub := StrSub(sv, Arith("-", n, BV(64, uint64(k)), true), n)
+			valid := And(st.intrinsicValidUTF8(sub), Not(isStart(last)))
+			// a valid string of k bytes whose only RuneStart byte is the first one is exactly one k-byte rune
+			size = Ite(And(cond, valid), BV(64, uint64(k)), Ite(cond, BV(64, 1), size))
+		}
+		size = Ite(Or(lastASCII, bvEq(n, BV(64, 0))), Ite(bvEq(n, BV(64, 0)), BV(64, 0), BV(64, 1)), size)
+		size = st.name(size, "dlr")
+		r := st.freshVar("rune", SBV(32))
+		return TupleVal{Ite(lastASCII, Resize(last, 32, false), r), size}, false
 	case "unicode/utf8.ValidString":
 		return st.intrinsicValidUTF8(st.strArg(args[0])), false
 	case "strings.Count":
@@ -476,6 +560,20 @@ func (st *State) callExtern(g *G, fr *Frame, name string, fn *ssa.Function, args
 		return IfaceVal{Dyn: types.NewPointer(nl.Type()), V: PtrVal{L: l, IsNil: False, T: types.NewPointer(nl.Type())}}, false
 
 	// ---- misc ----
+	case "slices.SortFunc", "sort.Slice", "sort.SliceStable":
+		// in-place reordering: every element is (potentially) written; the order itself is not modelled
+		var sv Val = args[0]
+		if iv, ok := sv.(IfaceVal); ok {
+			sv = iv.V
+		}
+		if sl, ok := sv.(SliceVal); ok && sl.Arr != nil {
+			n := int(st.concretize(sl.Len, 64))
+			for i := 0; i < n; i++ {
+				st.noteAccess(g, sl.Arr.Elems[sl.Off+i], true, curInstr(fr))
+			}
+		}
+		st.eng.stubs[name+" (writes every element; order not modelled)"] = true
+		return nil, false
 	case "math/rand.Intn":
 		n := args[0].(*Term)
 		st.check(Cmp(">", n, BV(64, 0), true), "panic", "rand-intn-nonpositive", "invalid argument to Intn", pos)
@@ -582,6 +680,28 @@ func (st *State) cutCall(kind, name string, args []Val, sig *types.Signature) Va
 			}
 		}
 		v := st.havocResult2(sig, name, kind == "ufok")
+		// remember what each uninterpreted result was computed from (to find the frame a parse result belongs to)
+		argText := ""
+		for _, a := range args {
+			switch x := a.(type) {
+			case *Term:
+				argText += " " + x.S
+			case BytesVal:
+				argText += " " + x.S.S
+			}
+		}
+		switch x := v.(type) {
+		case *Term:
+			st.ufArg[x.S] = argText
+		case BytesVal:
+			st.ufArg[x.S.S] = argText
+		case TupleVal:
+			for _, e := range x {
+				if t, ok := e.(*Term); ok {
+					st.ufArg[t.S] = argText
+				}
+			}
+		}
 		if kind == "ufidem" {
 			if t, ok := v.(*Term); ok {
 				st.ufCache["res:"+name+"|"+t.S] = t
@@ -620,9 +740,60 @@ func (st *State) cutCall(kind, name string, args []Val, sig *types.Signature) Va
 		return v
 	case "noop":
 		return st.zeroResult(sig)
+	case "deepcopy":
+		// util.DeepCopy(source, dest): dest's pointee becomes a deep copy of source's pointee (json round trip of a
+		// struct with exported fields only: fresh slices and pointees, equal contents)
+		if len(args) == 2 {
+			src, ok1 := args[0].(PtrVal)
+			dst, ok2 := args[1].(PtrVal)
+			if ok1 && ok2 && src.L != nil && dst.L != nil {
+				st.store(dst.L, st.deepCopyVal(st.load(src.L), 0))
+			}
+		}
+		return nil
 	}
 	st.fail("engine-error", "unknown cut kind "+kind)
 	return nil
+}
+
+func (st *State) deepCopyVal(v Val, depth int) Val {
+	if depth > 8 {
+		return v
+	}
+	switch x := v.(type) {
+	case StructVal:
+		out := StructVal{T: x.T, Fields: make([]Val, len(x.Fields))}
+		for i, f := range x.Fields {
+			out.Fields[i] = st.deepCopyVal(f, depth+1)
+		}
+		return out
+	case ArrayVal:
+		out := ArrayVal{T: x.T, Elems: make([]Val, len(x.Elems))}
+		for i, f := range x.Elems {
+			out.Elems[i] = st.deepCopyVal(f, depth+1)
+		}
+		return out
+	case SliceVal:
+		if x.Arr == nil {
+			return x
+		}
+		n := int(st.concretize(x.Len, 64))
+		elems := make([]Val, n)
+		for i := 0; i < n; i++ {
+			elems[i] = st.deepCopyVal(st.load(x.Arr.Elems[x.Off+i]), depth+1)
+		}
+		ns := st.mkSlice(x.ElemT, elems, 0)
+		ns.IsNil = x.IsNil
+		return ns
+	case PtrVal:
+		if x.L == nil {
+			return x
+		}
+		l := st.newLoc(x.L.T, x.L.Name+".copy")
+		st.store(l, st.deepCopyVal(st.load(x.L), depth+1))
+		return PtrVal{L: l, IsNil: x.IsNil, T: x.T}
+	}
+	return v
 }
 
 func (st *State) zeroResult(sig *types.Signature) Val {
@@ -1029,7 +1200,7 @@ func (st *State) jsonUnmarshal(args []Val) Val {
 	}
 	v := st.fresh(l.T, "json."+tn, 0)
 	st.jsonCalls = append(st.jsonCalls, jsonCall{T: l.T, Err: isErr, Val: v, Data: data.S})
-	st.store(l, v)
+	st.storeDecoded(l, v)
 	st.jsonCache[key] = cached{err: IfaceVal{}, val: v}
 	st.logf("json.Unmarshal(%s) ok", tn)
 	return IfaceVal{}
